@@ -72,6 +72,21 @@ class _Handler(http.server.BaseHTTPRequestHandler):
                 head += "%s: %s\r\n" % (k, v)
             head = (head + "\r\n").encode("latin-1")
             step = self.server.owner.piece
+            cuts = getattr(self, "_cuts", None)
+            if cuts:
+                # transport mode "cut at part ends": every piece of a multipart body ends exactly with the
+                # last data byte of a part (then the rest), with a pause so that the client sees them separately
+                self.wfile.write(head)
+                self.wfile.flush()
+                prev = 0
+                for c in cuts + [len(body)]:
+                    if c > prev:
+                        time.sleep(self.server.owner.piece_delay or 0.03)
+                        self.wfile.write(body[prev:c])
+                        self.wfile.flush()
+                        prev = c
+                self._cuts = None
+                return
             self.wfile.write(head + body[:step])
             self.wfile.flush()
             for i in range(step, len(body), step):
@@ -112,11 +127,18 @@ class _Handler(http.server.BaseHTTPRequestHandler):
             return self._send(206, [("Content-Type", "application/octet-stream"),
                                     ("Content-Range", "bytes %d-%d/%d" % (s, e, total))], data[s:e + 1])
         boundary = "%016x%04x" % (owner.rnd.getrandbits(64), owner.rnd.getrandbits(16))
+        if owner.boundary_style == "rfc":
+            # RFC 2046 bchars: digits, letters and '()+_,-./:=?  (no trailing space)
+            boundary = "b'%s(%x)+_,-./:=?%x" % (boundary[:6], owner.rnd.getrandbits(16), owner.rnd.getrandbits(12))
         body = b""
+        cuts = []
         for s, e in rs:
             body += ("\r\n--%s\r\nContent-Type: application/octet-stream\r\nContent-Range: bytes %d-%d/%d\r\n\r\n"
                      % (boundary, s, e, total)).encode() + data[s:e + 1]
+            cuts.append(len(body))
         body += ("\r\n--%s--\r\n" % boundary).encode()
+        if owner.cut_at_parts:
+            self._cuts = cuts
         return self._send(206, [("Content-Type", "multipart/byteranges; boundary=%s" % boundary)], body)
 
 
@@ -140,6 +162,8 @@ class RangeServer:
         self.piece = piece
         self.ignore_invalid_range = False
         self.piece_delay = 0.0     # seconds between two pieces (so that the client really sees them separately)
+        self.boundary_style = "hex"   # "rfc": boundaries using the punctuation RFC 2046 allows, apostrophe included
+        self.cut_at_parts = False     # multipart bodies delivered in pieces ending exactly at each part's last data byte
         self.httpd = None
         self.thread = None
         self.port = None
